@@ -8,6 +8,7 @@ sound there because the generic constraint algebra is exact (C16: `GC.intersect_
 -/
 import PoetryVerif.Proofs.MarkerAlgSoundOps
 import PoetryVerif.Proofs.Generic
+import PoetryVerif.Proofs.MarkerLeaf
 
 set_option linter.unusedSimpArgs false
 set_option linter.unusedVariables false
@@ -241,5 +242,105 @@ theorem strLeaf_merge {E : Env} (H : MkAtomOK E) (l1 l2 : Leaf) (im : Bool) (r :
 theorem leafSpec_str {E : Env} (H : MkAtomOK E) : LeafSpec (leafEval E) (StrLeaf E) where
   congr := strLeaf_congr
   merge := fun l1 l2 im r h1 h2 h => strLeaf_merge H l1 l2 im r h1 h2 h
+
+/-! ### the constructor fact `MkAtomOK` on plain values (through C06's text-level lemmas) -/
+
+/-- a first character that cannot start one of the operators of `_CONSTRAINT_RE_PATTERN_1`
+(`~= != >= > <= < === == = not in in`, case-insensitively) nor be `*` -/
+def StartOk (c : Char) : Prop :=
+  lowerChar c ≠ '~' ∧ lowerChar c ≠ '!' ∧ lowerChar c ≠ '>' ∧ lowerChar c ≠ '<' ∧ lowerChar c ≠ '=' ∧
+  lowerChar c ≠ 'n' ∧ lowerChar c ≠ 'i' ∧ c ≠ '*' ∧ c ≠ '!' ∧ c ≠ '='
+
+/-- a value of plain characters (no white space, quote, `|`, `,`) with such a first character -/
+def PlainValue (v : String) : Prop := PlainTok v ∧ ∀ c, v.toList.head? = some c → StartOk c
+
+theorem matchPattern1_bare (c : Char) (cs : List Char) (hc : StartOk c) (hv : valueOk (c :: cs)) :
+    matchPattern1 (c :: cs) = some (none, String.ofList (c :: cs)) := by
+  obtain ⟨h1, h2, h3, h4, h5, h6, h7, _⟩ := hc
+  have hs := spacesThenValue?_ok _ hv
+  simp [matchPattern1, matchPattern1.tryOps, pattern1Ops, stripPrefixCI?_cons, stripPrefixCI?_nil,
+    lc_eq, lc_tilde, lc_bang, lc_gt, lc_lt, lc_n, lc_i, h1, h2, h3, h4, h5, h6, h7, hs]
+
+theorem gparseSingle_bare (x : Bool) (c : Char) (cs : List Char) (hq : c ≠ '"' ∧ c ≠ '\'')
+    (hb : c ≠ '!' ∧ c ≠ '=') (hp : ∀ d ∈ c :: cs, isSpace d = false) :
+    Generic.parseSingle x (c :: cs) = .ok ⟨String.ofList (c :: cs), .eq, x⟩ := by
+  have h1 := matchBasicRest_noSpace (c :: cs) (by simp) hp
+  have hm : Generic.matchBasic (c :: cs) = some (none, c :: cs) := by
+    unfold Generic.matchBasic
+    simp only [h1, Option.map_some]
+    split <;> simp_all
+  have hsc : Generic.matchStrCmp (c :: cs) = none := by
+    simp [Generic.matchStrCmp, hq.1, hq.2]
+  simp [Generic.parseSingle, hsc, hm, gstrip_noSpace (c :: cs) hp]
+  cases x <;> rfl
+
+theorem gparseWith_bare (x : Bool) (c : Char) (cs : List Char) (hq : c ≠ '"' ∧ c ≠ '\'')
+    (hb : c ≠ '!' ∧ c ≠ '=') (hstar : c ≠ '*') (hp : ∀ d ∈ c :: cs, gPlain d) :
+    Generic.parseWith x (String.ofList (c :: cs)) = .ok (.atom ⟨String.ofList (c :: cs), .eq, x⟩) := by
+  unfold Generic.parseWith
+  rw [ofList_ne_star _ _ hstar]
+  simp only [Bool.false_eq_true, if_false, String.toList_ofList]
+  rw [gstrip_noSpace _ (fun d hd => (hp d hd).1), reSplit_sepOr_plain _ hp]
+  simp only [Generic.mapE, Generic.parseGroup, reSplit_sepComma_plain _ hp,
+    gparseSingle_bare x c cs hq hb (fun d hd => (hp d hd).1), Generic.foldIntersect]
+
+theorem mkSingle_string_bare (n v : String) (hn : n ∈ stringVarNames) (hv : PlainValue v) :
+    mkSingle n v false = .ok ⟨aliasName n, "==", v, false, .gen (.atom ⟨v, .eq, false⟩)⟩ := by
+  obtain ⟨f1, f2, f3, _⟩ := stringVar_facts n hn
+  obtain ⟨hv, hst⟩ := hv
+  have hvo := hv.valueOk
+  cases hl : v.toList with
+  | nil => exact absurd hl hv.1
+  | cons c cs =>
+    rw [hl] at hvo
+    have hc : StartOk c := hst c (by simp [hl])
+    have htok := hv.2 c (by simp [hl])
+    have hm := matchPattern1_bare c cs hc hvo
+    have hvs : String.ofList (c :: cs) = v := by rw [← hl]; simp
+    have hp := gparseWith_bare false c cs ⟨htok.2.2.2.1, htok.2.2.2.2⟩ ⟨hc.2.2.2.2.2.2.2.2.1, hc.2.2.2.2.2.2.2.2.2⟩
+      hc.2.2.2.2.2.2.2.1 (by rw [← hl]; exact hv.gPlain)
+    rw [hvs] at hp
+    have hprep : leafPrepare n v false =
+        .ok { name := aliasName n, op := "==", value := v, swapped := false, cstr := v, kind := .generic } := by
+      unfold leafPrepare
+      simp only [Bool.false_eq_true, if_false, hl, hm, hvs, Option.getD_none, f1, f2, Bool.false_and]
+      simp
+    simp only [mkSingle, hprep, bind, Except.bind, parseByKind,
+      Generic.parseConstraint, hp, Except.map, pure, Except.pure]
+
+/-- canonical plain string variables (no alias spelling) -/
+def plainStringVars : List String :=
+  ["os_name", "sys_platform", "platform_machine", "platform_system", "platform_python_implementation",
+   "implementation_name", "platform_version"]
+
+theorem plainStringVars_facts (n : String) (h : n ∈ plainStringVars) :
+    n ∈ stringVarNames ∧ aliasName n = n := by
+  simp only [plainStringVars, List.mem_cons, List.mem_nil_iff, or_false] at h
+  rcases h with rfl | rfl | rfl | rfl | rfl | rfl | rfl <;> decide
+
+/-- **`MkAtomOK` on plain values**: for the canonical string variables and `==`/`!=` atoms over plain
+values, `SingleMarker(name, str(atom))` stores that atom again -/
+theorem mkAtomOK_plain (n : String) (a : Generic.Atom) (s : Single) (hn : n ∈ plainStringVars)
+    (hv : PlainValue a.value) (hx : a.x = false) (he : a.isEqNe = true)
+    (h : mkSingleOfC n (.gen (.s (.atom a))) = .ok s) :
+    s.name = n ∧ s.swapped = false ∧ s.c = .gen (.s (.atom a)) ∧ s.op = a.op.str ∧ s.value = a.value := by
+  obtain ⟨hn1, hn2⟩ := plainStringVars_facts n hn
+  cases a with | mk v op x =>
+  simp only at hx hv; subst hx
+  cases op with
+  | eq =>
+    have := mkSingle_string_bare n v hn1 hv
+    simp only [mkSingleOfC, LeafC.toStr, GC.toStr, GS.toStr, Generic.Atom.toStr, bind, Except.bind] at h
+    simp at h
+    rw [this] at h; cases h
+    simp [hn2, Generic.Op.str]
+  | ne =>
+    have := mkSingle_string_ne n v hn1 hv.1
+    simp only [mkSingleOfC, LeafC.toStr, GC.toStr, GS.toStr, Generic.Atom.toStr, bind, Except.bind] at h
+    simp [Generic.Op.str] at h
+    rw [this] at h; cases h
+    simp [hn2, Generic.Op.str]
+  | in_ => simp [Generic.Atom.isEqNe] at he
+  | nc => simp [Generic.Atom.isEqNe] at he
 
 end Poetry.Marker
